@@ -676,6 +676,14 @@ func (fr *Frame) runBlocks(order []*ssa.BasicBlock, start *State, entryGuard str
 }
 
 func (fr *Frame) execBlock(b *ssa.BasicBlock, st *State, dry *loopInfo) {
+	if !fr.inlined {
+		if fr.fc.reachBlock == nil {
+			fr.fc.reachBlock = map[string]*ssa.BasicBlock{}
+		}
+		if r := fr.reach[b.Index]; r != "true" && r != "false" {
+			fr.fc.reachBlock[r] = b
+		}
+	}
 	for _, ins := range b.Instrs {
 		if _, ok := ins.(*ssa.Phi); ok {
 			continue
@@ -1121,7 +1129,7 @@ func (fr *Frame) exec(b *ssa.BasicBlock, st *State, ins ssa.Instruction) {
 		for _, r := range x.Results {
 			vals = append(vals, fr.val(r))
 		}
-		fr.rets = append(fr.rets, retSite{guard: fr.reach[b.Index], st: st.clone(), vals: vals, pos: x.Pos()})
+		fr.rets = append(fr.rets, retSite{blk: b, guard: fr.reach[b.Index], st: st.clone(), vals: vals, pos: x.Pos()})
 	case *ssa.Panic:
 		fr.ob("panic", fr.src(x.Pos(), "panic"), b, "false", x.Pos())
 	case *ssa.SliceToArrayPointer:
